@@ -33,6 +33,11 @@ LEVEL_TEXT = ("Solver-driven exhaustive enumeration of a bounded trace space (th
 
 def configs(tier):
     out = []
+    # posterior-level functionals with SYMBOLIC probabilities over a concrete genotype list (no tobytes on the probabilities)
+    for P, A in (((3, 2), (2, 3)) if tier == "quick" else ((3, 2), (2, 3), (4, 2), (3, 3))):
+        out.append(dict(kind="post", which="call", P=P, A=A))
+    for name in (("tet2", "dupes") if tier == "quick" else ("tet2", "dupes", "dip2", "mixed")):
+        out.append(dict(kind="post", which="asm", scenario=name))
     if tier == "quick":
         for g0 in M.genotypes(3, 2):
             out.append(dict(kind="call", chains=2, steps=2, P=2, A=3, burns=[0, 1], first=list(g0)))
@@ -55,7 +60,7 @@ def configs(tier):
 
 
 def weight(c):
-    return 1
+    return 5 if c["kind"] == "post" else 1
 
 
 def run_config(c, col):
@@ -68,7 +73,11 @@ def run_config(c, col):
     warnings.simplefilter("ignore")
     prof = E.Profile()
     with prof:
-        (_run_call if c["kind"] == "call" else _run_asm)(c, col)
+        if c["kind"] == "post":
+            E.cfg.concrete_floats = False
+            _run_post(c, col)
+        else:
+            (_run_call if c["kind"] == "call" else _run_asm)(c, col)
     col.functions |= set(prof.names())
     E.cfg.concrete_floats = False
 
@@ -290,6 +299,71 @@ def _check_asm(c, r):
     return problems
 
 
+# ------------------------------------------------------------------ symbolic probabilities
+
+
+def _run_post(c, col):
+    """mode / mode-support / allele frequencies as functionals of ANY probability vector over a fixed genotype list"""
+    if c["which"] == "call":
+        cc = E.load("mchap.calling.classes")
+        genos = [tuple(g) for g in M.genotypes(c["A"], c["P"])]
+        site = "mchap.calling.classes.PosteriorGenotypeAllelesDistribution.mode"
+        support_of = lambda g: tuple(sorted(set(g)))
+    else:
+        from checks import c13
+
+        ac = E.load("mchap.assemble.classes")
+        genos = [tuple(tuple(h) for h in g) for g in c13.SCENARIOS[c["scenario"]][0]]
+        site = "mchap.assemble.classes.PosteriorGenotypeDistribution.mode_genotype_support"
+        support_of = lambda g: tuple(sorted(set(g)))
+
+    def body(ctx):
+        ps = [z3.Real("p%d" % i) for i in range(len(genos) - 1)]
+        ps.append(1 - (z3.Sum(ps) if len(ps) > 1 else ps[0]))
+        for p in ps:
+            ctx.assume(p >= 0)
+        if c["which"] == "call":
+            post = cc.PosteriorGenotypeAllelesDistribution(rnp.array(genos, dtype=rnp.int8), E.real_array(ps))
+            g, gp, sp = post.mode(genotype_support=True)
+            g = tuple(int(a) for a in g)
+            g0, gp0 = post.mode()
+            return ps, g, gp, sp, tuple(int(a) for a in g0), gp0
+        post = ac.PosteriorGenotypeDistribution(rnp.array(genos, dtype=rnp.int8), E.real_array(ps))
+        sup = post.mode_genotype_support()
+        g, gp = sup.mode_genotype()
+        g = tuple(tuple(int(a) for a in h) for h in g)
+        g0, gp0 = post.mode()
+        return ps, g, gp, sup.probabilities.sum(), tuple(tuple(int(a) for a in h) for h in g0), gp0
+
+    first = True
+    for pr in E.explore(body, stats=col.stats):
+        if pr.exc is not None:
+            col.fail(site, "exception", witness=dict(exc=repr(pr.exc)), desc="raised %r" % (pr.exc,))
+            continue
+        col.path()
+        ctx = pr.ctx
+        if first:
+            col.reachable(ctx)
+            first = False
+        ps, g, gp, sp, g0, gp0 = pr.value
+        prob = {}
+        for gg, p in zip(genos, ps):
+            prob[gg] = prob.get(gg, z3.RealVal(0)) + p  # duplicated genotype rows add up
+        sups = {}
+        for gg, p in zip(genos, ps):
+            sups.setdefault(support_of(gg), []).append(p)
+        tot = {k: z3.Sum(v) if len(v) > 1 else v[0] for k, v in sups.items()}
+        mine = support_of(g)
+        w = dict(mode_support_genotype=g, mode=g0)
+        col.check(ctx, z3.And([tot[mine] >= t for t in tot.values()] + [E.real_term(sp) == tot[mine]]), site, "mode-support", witness=w,
+                  desc="the reported support has maximal total probability and SPM is that total (symbolic probabilities)")
+        same = [p for gg, p in zip(genos, ps) if support_of(gg) == mine]
+        col.check(ctx, z3.And([E.real_term(gp) >= p for p in same] + [z3.Or([E.real_term(gp) == p for gg, p in zip(genos, ps) if gg == g])]), site, "mode-within-support", witness=w,
+                  desc="the reported genotype is the most probable genotype of that support and GPM is its probability")
+        col.check(ctx, z3.And([E.real_term(gp0) >= p for p in ps] + [z3.Or([E.real_term(gp0) == p for gg, p in zip(genos, ps) if gg == g0])]), site, "mode", witness=w,
+                  desc="mode() is a maximiser with its probability")
+
+
 # ------------------------------------------------------------------ replay (the same computation on the real classes)
 
 
@@ -298,9 +372,11 @@ def replay(v):
 
     c = v["config"]
     w = v["witness"]
+    warnings.simplefilter("ignore")
+    if c["kind"] == "post":
+        return _replay_post(v)
     g = rnp.array(w["trace"], dtype=rnp.int8)
     burn = w["burn"]
-    warnings.simplefilter("ignore")
     try:
         if c["kind"] == "call":
             from mchap.calling import classes as rcc
@@ -325,6 +401,40 @@ def replay(v):
     except Exception as e:
         return v["kind"] == "exception", "real classes raised %r on trace %s burn %d" % (e, g.tolist(), burn)
     return bool(problems), "trace=%s burn=%d: %s" % (g.tolist(), burn, [p[1] for p in problems][:2])
+
+
+def _replay_post(v):
+    c = v["config"]
+    m = v.get("model") or {}
+    if c["which"] == "call":
+        from mchap.calling import classes as rcc
+
+        genos = [tuple(g) for g in M.genotypes(c["A"], c["P"])]
+    else:
+        from checks import c13
+        from mchap.assemble import classes as rac
+
+        genos = [tuple(tuple(h) for h in g) for g in c13.SCENARIOS[c["scenario"]][0]]
+    ps = [float(m.get("p%d" % i, 0.0)) for i in range(len(genos) - 1)]
+    ps.append(1.0 - sum(ps))
+    support_of = lambda g: tuple(sorted(set(g)))
+    tot = {}
+    for gg, p in zip(genos, ps):
+        tot[support_of(gg)] = tot.get(support_of(gg), 0.0) + p
+    if c["which"] == "call":
+        post = rcc.PosteriorGenotypeAllelesDistribution(rnp.array(genos, dtype=rnp.int8), rnp.array(ps))
+        g, gp, sp = post.mode(genotype_support=True)
+        g = tuple(int(a) for a in g)
+    else:
+        post = rac.PosteriorGenotypeDistribution(rnp.array(genos, dtype=rnp.int8), rnp.array(ps))
+        sup = post.mode_genotype_support()
+        g, gp = sup.mode_genotype()
+        g = tuple(tuple(int(a) for a in h) for h in g)
+        sp = sup.probabilities.sum()
+    best = max(tot.values())
+    bad = tot[support_of(g)] < best - 1e-9 or abs(sp - tot[support_of(g)]) > 1e-9
+    return bad, "probabilities %s over %s: reported genotype %s (GPM %.4f, SPM %.4f) but the best support has total %.4f" % (
+        [round(p, 4) for p in ps], genos, g, gp, sp, best)
 
 
 def validate(seed):
